@@ -7,12 +7,20 @@ PROPERTY = "C16"
 PRELOAD_NETWORK_ORDERS = [["btc", "xtn", "ltc", "bch", "grs", "doge", "dash", "btg"], ["btg", "grs", "bch", "doge", "ltc", "xtn", "btc"]]
 LEVEL = "exploration"
 TECHNIQUE = ("differential runtime monitor: network.message.pack/parse vs independent per-message wire encoders, boundary-biased field "
-             "values; plus call histories on one network with long-lived, in-place changed and shared objects and interleaved failing calls")
+             "values; every value set also in a second call spelling (keyword order, undeclared keys, container types, input buffer "
+             "type, re-pack of the parsed dict); plus call histories on one network with long-lived, in-place changed and shared "
+             "objects, a reused receive buffer and interleaved failing calls")
 RULE = ("cases: (network BTC/LTC, message name, field values) for every key of STANDARD_P2P_MESSAGES enumerated at run time; values "
         "are per declared type boundary values (u32 0/1/2^31/2^32-1, u64 to 2^64-1, 6-byte ids to 2^48-1, u8 0/255, booleans, "
         "compact-size boundaries), arrays of length 0/1/2/252/253/1000, IPv4-mapped and IPv6 addresses, ports 0/1/255/256/8333/65535, "
         "embedded transactions (with and without witness), headers, blocks, honest merkle proofs, well-formed alert payloads, "
         "optional relay True/False/absent. Distinct by (message, reference bytes, relay presence); non-trivial when the message has fields. "
+        "Call spellings (one per value set, all classes come round in every shard, recorded in the case): after the pack with keywords in "
+        "declared order the same argument objects are packed again with the keywords reversed / sorted by name / shuffled / rotated, with "
+        "1-2 undeclared keys at rng-chosen positions, with arrays as tuples, pairs as lists, byte arrays (filter, data, flags) as bytes / "
+        "bytearray; parse gets the payload as bytes, a bytes-subclass instance, a bytearray or memoryview of one that the caller overwrites "
+        "right after the call; every second value set the dict parse returned (all its keys, incl. tx_hashes / alert_info, in returned / "
+        "reversed / sorted / shuffled order) is packed again and must give the payload. "
         "Histories (per shard, from the shard rng): 6-12 steps on one network (BTC or LTC) over a pool of live objects - new message "
         "(object slots filled from the pool: the same Block/Tx/PeerAddress/InvItem object in several messages and several times in one "
         "array), read-only calls on an object (hash/id/as_bin/as_hex/str/stream/...), in-place change then re-send (Block.set_nonce, "
@@ -20,7 +28,9 @@ RULE = ("cases: (network BTC/LTC, message name, field values) for every key of S
         "the caller-owned argument list (pop/duplicate/reverse/clear) then re-send, pack with one invalid value at a late field or late "
         "array element / missing keyword / unknown name followed by a valid pack (half of the time the corrected same message), parse of "
         "cut-off bytes followed by valid calls, objects and containers returned by parse sent on (and changed), the same bytes parsed "
-        "again later. Every valid pack/parse in a history is a case, distinct by (network, message, reference bytes, preceding step class).")
+        "again later. Each message's keyword dict is built once in an rng-chosen order (70% not the declared one; 12% with an undeclared "
+        "key), adopted parse results keep every key parse returned; payloads are parsed from bytes / subclass / bytearray / memoryview / "
+        "one per-history receive buffer (bytearray, also through a memoryview) that is refilled for the next payload. Every valid pack/parse in a history is a case, distinct by (network, message, reference bytes, preceding step class).")
 ASSUMPTIONS = [
     "reference encoders in vmon/refs/p2p.py (with txser, blockser) follow the protocol documents; self-tested on every run against "
     "hand-assembled byte strings, documented examples (address 198.27.100.9:8333, feefilter 48508, filterload b50f/11) and "
@@ -31,6 +41,12 @@ ASSUMPTIONS = [
     "`alert` payloads are well-formed alert structures (parse post-processes the payload and raises otherwise); `block` "
     "messages carry blocks whose transactions hash to the header root; transactions have >= 1 input",
     "sequence container types are not compared (a list packed may come back as a tuple)",
+    "call spellings: keyword arguments are unordered (a name/value mapping), so every order names the same message; tuples and lists are "
+    "the array / pair spellings pack itself distinguishes, bytes / bytearray are what BloomFilter.filter_load_params hands out for "
+    "`filter`. pack(name, **parse(name, payload)) = payload is read as part of 'round-trip' including the keys parse adds itself "
+    "(tx_hashes, alert_info); an absent `relay` (reported falsy) is passed on as None. Undeclared keys the caller made up and "
+    "bytearray / memoryview payloads are only judged when the call returns (a refusal is counted, not reported); a bytes-subclass "
+    "instance is a bytes object and must be parsed",
     "histories: 'the fields of a message' are the values its argument objects have when pack is called; objects are changed between "
     "calls only through what the library defines or does itself (Block.set_nonce, Block.set_txs with transactions matching the header "
     "root, Tx.set_witness, assignment to TxIn.script / TxIn.sequence / TxOut.coin_value as Solver, SolutionChecker and tx_utils do, list "
@@ -42,7 +58,9 @@ EXPLANATION = ("for each value set: pack(name, **values) must equal the referenc
                "field values (InvItem, PeerAddress, Tx, Block compared field-wise). A table key without a generator aborts the run. "
                "In a history the same two demands hold at every valid call, against the reference encoding of the CURRENT values of the "
                "argument objects; a failing pack is re-tried once and once with freshly built objects to name the mechanism "
-               "(wrong once = state left by an earlier call; right with fresh objects = state kept on the reused object)")
+               "(wrong once = state left by an earlier call; right with fresh objects = state kept on the reused object). A wrong answer "
+               "to a second call spelling is narrowed by repeating the plain call and the spelling one dimension at a time "
+               "(not repeatable / keyword order / container spelling / undeclared keyword / input spelling)")
 TIMEOUT = {"quick": 600, "thorough": 3 * 3600}
 
 N_SHARDS = 16
@@ -449,6 +467,151 @@ def cmp_value(N, got, want):
     return "unknown shape"
 
 
+# ------------------------------------------------------------------------------------------- call spellings
+#
+# The same message can be handed to pack in many spellings that all name the same field values: keyword arguments in any
+# order (the caller's dict need not be built in the declared order), a dict that carries more keys than the message
+# declares (what parse itself returns for merkleblock / alert), arrays as tuples (what parse returns) or lists, pairs as
+# lists or tuples, byte arrays as bytes / bytearray (BloomFilter.filter_load_params returns a bytearray).  The same
+# payload can be handed to parse as bytes, an instance of a bytes subclass, a bytearray or a memoryview (also of a
+# receive buffer the caller overwrites afterwards).  A variant names one such spelling; it is part of the stored case.
+
+ORDER_KINDS = ("reversed", "sorted", "shuffled", "rotated")
+PACK_KINDS = ("reversed", "sorted", "shuffled", "extra", "rotated", "containers", "shuffled+extra", "reversed+containers")
+DATA_KINDS = ("bytes", "bytes", "subclass", "bytes", "bytearray", "bytes", "memoryview", "bytearray_view")
+EXTRA_KEYS = ("tx_hashes", "alert_info", "checksum", "command", "length", "a", "zz", "Version")
+CONTAINER_KINDS = ("tuples", "pair_lists", "u8_as_bytes", "u8_as_bytearray", "all")
+
+
+class BytesSubclass(bytes):
+    """what a framing layer that tags its payloads hands on: still a bytes object"""
+    origin = "peer"
+
+
+def field_types(layout):
+    return dict(item.split(":") for item in layout.split())
+
+
+_TYPES = {}
+
+
+def types_of(name):
+    """declared field name -> declared type, read from the library's table"""
+    if not _TYPES:
+        _TYPES.update({k: field_types(v) for k, v in table_names().items()})
+    return _TYPES[name]
+
+
+def reorder_keys(keys, how, rng):
+    """a key order of class `how` that is NOT the given (declared) one whenever there are two keys or more"""
+    keys = list(keys)
+    out = list(keys)
+    if how == "reversed":
+        out.reverse()
+    elif how == "sorted":
+        out.sort()
+        if out == keys:
+            out.reverse()
+    elif how == "shuffled":
+        rng.shuffle(out)
+    elif how == "rotated":
+        r = rng.randrange(1, len(out)) if len(out) > 1 else 0
+        out = out[r:] + out[:r]
+    if out == keys and len(out) > 1:
+        out = out[1:] + out[:1]
+    return out
+
+
+def make_variant(rng, name, fields, types, j):
+    """the spelling of the j-th value set of a message (j counts the sets one shard sees): every class comes round"""
+    keys = list(fields)
+    kind = PACK_KINDS[j % len(PACK_KINDS)]
+    v = {"kind": kind, "order": None, "extra": None, "containers": None, "data": DATA_KINDS[(j // 3) % len(DATA_KINDS)],
+         "repack": ("parsed", "reversed", "sorted", "shuffled")[(j // 2) % 4] if j % 2 == 0 or j < 40 else None}
+    has_array = any(t.startswith("[") for t in types.values())
+    for part in kind.split("+"):
+        if part in ORDER_KINDS:
+            if len(keys) >= 2:
+                v["order"], v["order_kind"] = reorder_keys(keys, part, rng), part
+            elif has_array:
+                v["containers"] = rng.choice(CONTAINER_KINDS)       # one field: nothing to reorder
+            else:
+                part = "extra"
+        if part == "containers":
+            if has_array:
+                v["containers"] = CONTAINER_KINDS[(j // len(PACK_KINDS)) % len(CONTAINER_KINDS)]
+            elif len(keys) >= 2:
+                v["order_kind"] = rng.choice(ORDER_KINDS)
+                v["order"] = reorder_keys(keys, v["order_kind"], rng)
+            else:
+                part = "extra"
+        if part == "extra":
+            n = rng.choice([1, 1, 2])
+            names = [x for x in rng.sample(EXTRA_KEYS, n) if x not in fields]
+            v["extra"] = [[x, rng.randrange(len(keys) + 1), rng.choice([None, 0, b"", "x", 7])] for x in names]
+    if v["repack"] == "shuffled":
+        v["repack_seed"] = rng.randrange(1 << 30)
+    return v
+
+
+def respell_containers(v, how, typ):
+    """the same array value in another container spelling (objects are shared, not copied)"""
+    if not isinstance(v, list) or not typ.startswith("["):
+        return v
+    if typ == "[1]" and how in ("u8_as_bytes", "u8_as_bytearray", "all"):
+        return bytearray(v) if how != "u8_as_bytes" else bytes(v)
+    if how in ("pair_lists", "all"):
+        v = [list(x) if isinstance(x, tuple) else x for x in v]
+    if how in ("tuples", "all"):
+        v = tuple(v)
+    return v
+
+
+def spell_kwargs(kw, types, order=None, extra=None, containers=None):
+    out = {k: (respell_containers(kw[k], containers, types.get(k, "")) if containers else kw[k]) for k in (order or list(kw))}
+    if extra:
+        items = list(out.items())
+        for x, pos, val in extra:
+            items.insert(min(pos, len(items)), (x, val))
+        out = dict(items)
+    return out
+
+
+def spell_data(data, how, buf=None):
+    """-> (object handed to parse, function that overwrites the caller-owned buffer afterwards or None)"""
+    if how == "subclass":
+        return BytesSubclass(data), None
+    if how in ("bytearray", "bytearray_view"):
+        b = bytearray(data)
+
+        def scribble():
+            for i in range(len(b)):
+                b[i] ^= 0xa5
+        return (b if how == "bytearray" else memoryview(b)), scribble
+    if how == "memoryview":
+        return memoryview(data), None
+    if how in ("buffer", "buffer_view"):
+        try:
+            buf[:] = data
+        except BufferError:               # a view of the buffer handed out earlier is still held somewhere: a new buffer
+            buf = bytearray(data)
+        return (buf if how == "buffer" else memoryview(buf)), None
+    return data, None
+
+
+def repack_kwargs(d, model, how, seed=0):
+    """the dict parse returned, as the keyword arguments of pack (every key it carries; absent `relay` stays absent)"""
+    import random
+    keys = list(d)
+    if how == "reversed":
+        keys.reverse()
+    elif how == "sorted":
+        keys.sort()
+    elif how == "shuffled":
+        random.Random(seed).shuffle(keys)
+    return {k: (model[k] if k == "relay" else d[k]) for k in keys}
+
+
 # ------------------------------------------------------------------------------------------- judgement
 
 def _pack(N, name, fields):
@@ -466,16 +629,61 @@ def _without_short_ids_ok(N, name, fields, op):
     return st == "ok" and all(cmp_value(N, d.get(k), v) is None for k, v in f2.items())
 
 
-def judge(net, name, fields, rec, sample=False):
+def judge_pack_variant(N, name, kw, types, variant, want, case, rec):
+    """the same argument objects once more, in the variant's spelling; names what the wrong answer depends on"""
+    order, extra, containers = variant.get("order"), variant.get("extra"), variant.get("containers")
+    if not (order or extra or containers):
+        return
+    def call(**how):
+        # spelled anew from the caller's objects at each call (a call that damaged them shows up as a failing spelling)
+        return observe(lambda: N.message.pack(name, **spell_kwargs(kw, types, **how)))
+    def good(r):
+        return r[0] == "ok" and r[1] == want
+    rec.ev("pack_variant")
+    for what, on in (("keyword_order", order), ("extra_keyword", extra), ("container_spelling", containers)):
+        if on:
+            rec.ev("pack_variant:" + what)
+    if order:
+        rec.ev("pack_variant:order_" + variant.get("order_kind", "other"))
+    if containers:
+        rec.ev("pack_variant:containers_" + containers)
+    r = call(order=order, extra=extra, containers=containers)
+    if good(r):
+        return
+    if not good(call()):
+        # the plain call that was right a moment ago (or was reported above) is wrong now
+        rec.violation("p2p.pack_not_repeatable.%s" % name, case, r[1], want)
+        return
+    if order and not good(call(order=order)):
+        rec.violation("p2p.pack_depends_on_keyword_order.%s" % name, case, r[1], want)
+    elif containers and not good(call(containers=containers)):
+        rec.violation("p2p.pack_depends_on_container_spelling.%s.%s" % (containers, name), case, r[1], want)
+    elif extra and not good(call(extra=extra)):
+        if call(extra=extra)[0] != "ok":
+            rec.ev("pack_rejects_undeclared_keyword")        # not judged: the statement does not say they are accepted
+        else:
+            rec.violation("p2p.pack_disturbed_by_undeclared_keyword.%s" % name, case, r[1], want)
+    elif r[0] != "ok" and extra and good(call(order=order, containers=containers)):
+        rec.ev("pack_rejects_undeclared_keyword")
+    else:
+        rec.violation("p2p.pack_depends_on_call_spelling.%s" % name, case, r[1], want)
+
+
+def judge(net, name, fields, rec, sample=False, variant=None):
     N = _net(net)
+    variant = variant or {}
     case = {"net": net, "name": name, "fields": fields}
+    if variant:
+        case["variant"] = variant
+    types = types_of(name)
     want = P2P.encode(name, fields)
     if P2P.decode(name, want) != P2P.normalise(name, fields):
         raise RuntimeError("reference encoder/decoder disagree on %s (oracle error)" % name)
     rec.case((net, name, want, fields.get("relay", 0)), nontrivial=bool(fields))
     rec.ev("pack")
     rec.ev("pack:" + name)
-    st, got = _pack(N, name, fields)
+    kw = {k: to_lib(N, v) for k, v in fields.items()}
+    st, got = observe(lambda: N.message.pack(name, **kw))
     int6 = name == "cmpctblock" and len(fields.get("short_ids", ())) > 0
     if st != "ok":
         if int6 and _without_short_ids_ok(N, name, fields, "pack"):
@@ -487,9 +695,27 @@ def judge(net, name, fields, rec, sample=False):
             rec.violation("p2p.int6.wrong_bytes", case, got, want)
         else:
             rec.violation("p2p.pack_bytes_mismatch.%s" % name, case, got, want)
+    elif variant:
+        judge_pack_variant(N, name, kw, types, variant, want, case, rec)
     rec.ev("parse")
     rec.ev("parse:" + name)
-    st, d = observe(N.message.parse, name, want)
+    how = variant.get("data", "bytes")
+    data, scribble = spell_data(want, how)
+    st, d = observe(N.message.parse, name, data)
+    if scribble:
+        scribble()                       # the caller's buffer is its own again: what parse returned must not follow it
+    if how != "bytes":
+        rec.ev("parse_input:" + how)
+        if st != "ok" and how != "subclass":
+            st2, d2 = observe(N.message.parse, name, want)
+            if st2 == "ok":
+                rec.ev("parse_rejects_input:" + how)      # not judged: the statement speaks of bytes
+                st, d, how = st2, d2, "bytes"
+        elif st == "ok" and isinstance(d, dict) and parse_mismatches(N, name, d, fields):
+            st2, d2 = observe(N.message.parse, name, want)
+            if st2 == "ok" and isinstance(d2, dict) and not parse_mismatches(N, name, d2, fields):
+                rec.violation("p2p.parse_depends_on_input_spelling.%s.%s" % (how, name), case, parse_mismatches(N, name, d, fields), fields)
+                st, d, how = st2, d2, "bytes"
     if st != "ok":
         if int6 and _without_short_ids_ok(N, name, fields, "parse"):
             rec.violation("p2p.int6.codec_raises", case, d, fields)
@@ -499,14 +725,7 @@ def judge(net, name, fields, rec, sample=False):
     if not isinstance(d, dict):
         rec.violation("p2p.parse_not_a_dict.%s" % name, case, d, fields)
         return
-    bad = []
-    for k, v in fields.items():
-        if k not in d:
-            bad.append((k, "missing"))
-            continue
-        r = cmp_value(N, d[k], v)
-        if r:
-            bad.append((k, r))
+    bad = parse_mismatches(N, name, d, fields)
     if "relay" in fields:
         rec.ev("relay:" + {True: "true", False: "false", None: "absent"}[fields["relay"]])
     for k, why in bad:
@@ -515,7 +734,7 @@ def judge(net, name, fields, rec, sample=False):
         elif int6 and k == "short_ids":
             rec.violation("p2p.int6.wrong_values", case, d.get(k), fields[k])
         else:
-            rec.violation("p2p.parse_field_mismatch.%s.%s" % (name, k), case, {"why": why, "got": d.get(k)}, v)
+            rec.violation("p2p.parse_field_mismatch.%s.%s" % (name, k), case, {"why": why, "got": d.get(k)}, fields[k])
     if name == "alert" and not bad:
         info = d.get("alert_info")
         ref = P2P.dec_alert_payload(fields["payload"])
@@ -523,8 +742,37 @@ def judge(net, name, fields, rec, sample=False):
             rec.note("alert_info (derived, not a packed field) differs from the reference decoding of the payload")
         else:
             rec.ev("alert_info_agrees")
+    if variant.get("repack") and not bad:
+        # the other direction of the round trip: what parse returned (all of it, as returned) goes back through pack
+        rec.ev("repack_of_parsed")
+        rec.ev("repack_of_parsed:" + variant["repack"])
+        if set(d) - set(fields):
+            rec.ev("repack_of_parsed:with_keys_added_by_parse")
+        a = repack_kwargs(d, fields, variant["repack"], variant.get("repack_seed", 0))
+        st, got = observe(lambda: N.message.pack(name, **a))
+        if st != "ok" or got != want:
+            a = repack_kwargs({k: d[k] for k in fields}, fields, "parsed")
+            st2, got2 = observe(lambda: N.message.pack(name, **a))
+            if st2 == "ok" and got2 == want:
+                rec.violation("p2p.repack_of_parsed.depends_on_keys_or_order.%s" % name, case, got, want)
+            else:
+                rec.violation("p2p.repack_of_parsed.%s.%s" % ("raises" if st != "ok" else "bytes_mismatch", name), case, got, want)
     if sample:
         rec.sample({"op": "pack/parse", "net": net, "name": name, "bytes": want[:120], "n_bytes": len(want)})
+
+
+def parse_mismatches(N, name, d, fields):
+    if not isinstance(d, dict):
+        return [("*", "not a dict")]
+    bad = []
+    for k, v in fields.items():
+        if k not in d:
+            bad.append((k, "missing"))
+            continue
+        r = cmp_value(N, d[k], v)
+        if r:
+            bad.append((k, r))
+    return bad
 
 
 # ------------------------------------------------------------------------------------------- histories
@@ -540,20 +788,6 @@ HISTORY_NAMES = (["headers"] * 5 + ["block"] * 3 + ["merkleblock"] * 2 + ["tx"] 
                                                    "filterload", "filteradd", "reject", "ping", "pong", "feefilter", "sendcmpct",
                                                    "alert", "verack"])
 NO_LIST_EDIT = {"merkleblock"}          # the proof ties hashes/flags/total together
-
-
-def parse_mismatches(N, name, d, fields):
-    if not isinstance(d, dict):
-        return [("*", "not a dict")]
-    bad = []
-    for k, v in fields.items():
-        if k not in d:
-            bad.append((k, "missing"))
-            continue
-        r = cmp_value(N, d[k], v)
-        if r:
-            bad.append((k, r))
-    return bad
 
 
 class History:
@@ -572,6 +806,7 @@ class History:
         self.after = "start"            # class of the step before the next judged call
         self.last_failed = None         # class of the most recent unjudged call that raised
         self.failed_pack_seen = None    # "failed_pack" once an unjudged pack raised in this history
+        self.buf = bytearray()          # the caller's receive buffer: payloads are copied in and parsed from it, again and again
 
     # ---- bookkeeping
     def register(self, m, obj, kind, frozen=False):
@@ -663,12 +898,27 @@ class History:
         self.keep.append(fields)
         return fields
 
+    def spell(self, fields, kw):
+        """the caller's keyword dict in the order (and with the undeclared keys) this caller happens to build it"""
+        rng = self.rng
+        keys = list(kw)
+        if len(keys) >= 2 and rng.random() < 0.7:
+            keys = reorder_keys(keys, rng.choice(ORDER_KINDS), rng)
+        out = {k: kw[k] for k in keys}
+        if rng.random() < 0.12:
+            x = rng.choice(EXTRA_KEYS)
+            if x not in out:
+                items = list(out.items())
+                items.insert(rng.randrange(len(items) + 1), (x, rng.choice([None, 0, b"", "x", 7])))
+                out = dict(items)
+        return out
+
     def add_message(self, name, fields, kw=None):
         self.keep.append(fields)
         if kw is None:
             kw = {k: to_lib(self.N, v, self.live) for k, v in fields.items()}
             self.collect(list(fields.values()))
-        self.msgs.append([name, fields, kw])
+        self.msgs.append([name, fields, self.spell(fields, kw)])
         if len(self.msgs) > 6:
             self.msgs.pop(self.rng.randrange(3))
         return self.msgs[-1]
@@ -691,30 +941,84 @@ class History:
         rec.case(("history", self.net, name, want, self.after, what), nontrivial=True)
         rec.ev("history.pack")
         rec.ev("history.pack_after:" + self.after)
+        declared = [k for k in fields if k in kw]
+        in_declared_order = [k for k in kw if k in fields] == declared
+        undeclared = [k for k in kw if k not in fields]
+        rec.ev("history.pack_keywords:" + ("declared_order" if in_declared_order else "other_order"))
+        if undeclared:
+            rec.ev("history.pack_keywords:with_undeclared_keys")
         st, got = observe(lambda: N.message.pack(name, **kw))
         if st != "ok" or got != want:
             st2, got2 = observe(lambda: N.message.pack(name, **kw))
             if st2 == "ok" and got2 == want:
                 mech = "p2p.history.pack_wrong_once.after_%s" % (self.failed_pack_seen or self.last_failed or self.after)   # state left by an earlier call
             else:
+                def good(r):
+                    return r[0] == "ok" and r[1] == want
+                # keys parse itself adds to its result belong to the round trip; keys this caller made up do not
+                made_up = [k for k in undeclared if (name, k) not in (("merkleblock", "tx_hashes"), ("alert", "alert_info"))]
+                plain = {k: kw[k] for k in declared}
+                r4 = observe(lambda: N.message.pack(name, **plain)) if (undeclared or not in_declared_order) else (None, None)
                 st3, got3 = _pack(N, name, fields)
-                if st3 == "ok" and got3 == want:
+                if good(r4):
+                    # the same objects, spelled in the declared order without further keys, give the right bytes
+                    r5 = observe(lambda: N.message.pack(name, **{k: kw[k] for k in kw if k not in made_up})) if made_up else (None, None)
+                    if good(observe(lambda: N.message.pack(name, **kw))):
+                        # ... and now the caller's own spelling is right as well: the answer follows the calls made before it
+                        mech = "p2p.history.pack_depends_on_preceding_calls.%s.after_%s" % (name, "+".join(self.mutators_of(fields)) or self.after)
+                    elif good(r5) and st != "ok":
+                        mech = None                    # an undeclared keyword the caller made up is refused: not judged
+                        rec.ev("history.pack_rejects_undeclared_keyword")
+                    elif good(r5):
+                        mech = "p2p.history.pack_disturbed_by_undeclared_keyword.%s" % name
+                    elif in_declared_order:
+                        mech = "p2p.history.pack_disturbed_by_keys_added_by_parse.%s" % name
+                    else:
+                        mech = "p2p.history.pack_depends_on_keyword_order.%s" % name
+                elif st3 == "ok" and got3 == want:
                     mech = "p2p.history.pack_stale_object.%s.after_%s" % (name, "+".join(self.mutators_of(fields)) or self.after)
                 else:
                     mech = "p2p.history.pack_wrong.%s.after_%s" % (name, self.after)
-            rec.violation(mech, self.case_dict(), got, want)
+            if mech:
+                rec.violation(mech, self.case_dict(), got, want)
         rec.ev("history.parse")
-        st, d = observe(N.message.parse, name, want)
-        bad = parse_mismatches(N, name, d, fields) if st == "ok" else None
+        st, d, bad, how = self.parse_spelled(name, want, fields)
         if st != "ok" or bad:
+            same_again_ok = True
+            if how != "bytes":
+                st3, d3, bad3, _ = self.parse_spelled(name, want, fields, how)       # the same spelling once more
+                same_again_ok = st3 == "ok" and not bad3
             st2, d2 = observe(N.message.parse, name, want)
             again_ok = st2 == "ok" and not parse_mismatches(N, name, d2, fields)
-            mech = "p2p.history.parse_%s.%s.after_%s" % ("wrong_once" if again_ok else ("raises" if st != "ok" else "field_mismatch"),
-                                                         name, self.after)
+            kind = "wrong_once" if (again_ok and same_again_ok) else ("raises" if st != "ok" else "field_mismatch")
+            if again_ok and not same_again_ok:
+                kind = "depends_on_input_spelling.%s" % how
+            mech = "p2p.history.parse_%s.%s.after_%s" % (kind, name, self.after)
             rec.violation(mech, self.case_dict(), d if st != "ok" else bad, fields)
             d = None
         self.after = "valid_call"
         return want, d
+
+    HOW_DATA = ["bytes"] * 10 + ["subclass"] * 2 + ["bytearray"] * 2 + ["memoryview", "bytearray_view"] + ["buffer"] * 3 + ["buffer_view"]
+
+    def parse_spelled(self, name, want, fields, how=None):
+        """parse of the payload in one of the spellings a caller may hold it in -> (status, dict, mismatches, spelling judged)"""
+        N, rec = self.N, self.rec
+        how = how or self.rng.choice(self.HOW_DATA)
+        data, scribble = spell_data(want, how, self.buf)
+        if how in ("buffer", "buffer_view") and (data.obj if how == "buffer_view" else data) is not self.buf:
+            self.buf = data.obj if how == "buffer_view" else data
+            rec.ev("history.receive_buffer_view_retained")
+        st, d = observe(N.message.parse, name, data)
+        if scribble:
+            scribble()
+        rec.ev("history.parse_input:" + how)
+        if st != "ok" and how not in ("bytes", "subclass"):
+            st2, d2 = observe(N.message.parse, name, want)
+            if st2 == "ok":
+                rec.ev("history.parse_rejects_input:" + how)          # not judged: the statement speaks of bytes
+                st, d, how = st2, d2, "bytes"
+        return st, d, (parse_mismatches(N, name, d, fields) if st == "ok" else None), how
 
     # ---- steps
     def step_new(self, name=None):
@@ -933,7 +1237,7 @@ class History:
             fields = self.new_fields(name)
             kw = {k: to_lib(N, v, self.live) for k, v in fields.items()}
             own = False
-        keys = list(kw)
+        keys = [k for k in kw if k in fields]
         r = rng.random()
         if not keys or r < 0.05:
             bad_name, bad_kw = "no_such_message", kw
@@ -994,7 +1298,7 @@ class History:
         self.keep.append(model)
         for k in model:
             self.adopt(model[k], d[k])
-        kw2 = {k: (d[k] if k != "relay" else model[k]) for k in model}
+        kw2 = {k: (d[k] if k != "relay" else model[k]) for k in d}            # all of it: also the keys parse added
         self.snaps.append((name, want, P2P.decode(name, want)))
         msg = self.add_message(name, model, kw2)
         self.after = "adopt_parsed"
@@ -1011,8 +1315,11 @@ class History:
         self.trace.append("reparse:" + name)
         rec.ev("history.step:parse_same_bytes_again")
         rec.ev("history.parse")
-        st, d = observe(N.message.parse, name, data)
-        bad = parse_mismatches(N, name, d, fields) if st == "ok" else None
+        if self.rng.random() < 0.7:
+            st, d = observe(N.message.parse, name, data)                     # the very same bytes object
+            bad = parse_mismatches(N, name, d, fields) if st == "ok" else None
+        else:
+            st, d, bad, _ = self.parse_spelled(name, data, fields)
         if st != "ok" or bad:
             rec.violation("p2p.history.parse_same_bytes_differs.%s" % name, self.case_dict(), d if st != "ok" else bad, fields)
 
@@ -1048,6 +1355,13 @@ def run_shard(spec, rec):
                                                           "txin_sequence", "txout_coin_value", "list_edit", "adopt_parsed", "valid_call")])
     for name in table:
         rec.require("pack:" + name, "parse:" + name)
+    rec.require("pack_variant:keyword_order", "pack_variant:extra_keyword", "pack_variant:container_spelling", "repack_of_parsed",
+                "repack_of_parsed:with_keys_added_by_parse", *["pack_variant:order_" + x for x in ORDER_KINDS],
+                *["pack_variant:containers_" + x for x in CONTAINER_KINDS], *["repack_of_parsed:" + x for x in ("parsed", "reversed", "sorted", "shuffled")],
+                *["parse_input:" + x for x in ("subclass", "bytearray", "memoryview", "bytearray_view")])
+    if spec.get("histories", 0):
+        rec.require("history.pack_keywords:declared_order", "history.pack_keywords:other_order", "history.pack_keywords:with_undeclared_keys",
+                    *["history.parse_input:" + x for x in sorted(set(History.HOW_DATA))])
     part, parts, sets = spec["part"], spec["parts"], spec["sets"]
     for name in table:
         rng = shard_rng(spec["seed"], PROPERTY, spec["tier"], spec["shard"], salt=name)
@@ -1056,10 +1370,12 @@ def run_shard(spec, rec):
             ks = [part] if part < 2 else []
         else:
             ks = range(part, sets, parts)
-        for k in ks:
+        vrng = shard_rng(spec["seed"], PROPERTY, spec["tier"], spec["shard"], salt="spelling:" + name)
+        for j, k in enumerate(ks):
             net = "LTC" if k % 5 == 4 else "BTC"
             fields = gen(rng, k)
-            judge(net, name, fields, rec, sample=(k == part and part < 3 and name in ("version", "cmpctblock", "addr")))
+            variant = make_variant(vrng, name, fields, types_of(name), j + (part if gen is g_empty else 0))
+            judge(net, name, fields, rec, sample=(k == part and part < 3 and name in ("version", "cmpctblock", "addr")), variant=variant)
     for h in range(spec.get("histories", 0)):
         run_history({"seed": spec["seed"], "tier": spec["tier"], "shard": spec["shard"], "h": h}, rec)
     if part == 0:
@@ -1079,4 +1395,4 @@ def replay_case(case, rec):
     if "history" in case:
         run_history(case["history"], rec)
         return
-    judge(case["net"], case["name"], case["fields"], rec)
+    judge(case["net"], case["name"], case["fields"], rec, variant=case.get("variant"))
